@@ -822,5 +822,5 @@ func RuleG6(c *Ctx) {
 			}
 		}
 	}
-	c.FloorN("G6", 6, n, "bigIntPool.Get sites")
+	c.FloorN("G6", 4, n, "sync.Pool Get sites")
 }
